@@ -5,6 +5,8 @@ from engine.anl.casts import const_value
 from .common import S, co, calls_norm, is_call_term, var_name, render_path, const_strs
 from . import C09
 
+from .common import ok_return_blocks as _okret
+
 EXPLANATION = (
     "Static decision of the open/verdict plumbing: (R10.1) the server's empty (success) SYNACK is dominated by the Ok(Ok(conn)) "
     "edge of the dial; (R10.2) under the assumption peer_version >= 2 every error exit of the server's proxy function before the "
@@ -158,7 +160,7 @@ def r4_client_wait(ctx):
         ctx.missing("R10.4", "Ok(Ok(_)) level of the match")
         return
     ok_edges = good.edges_for("Ok")
-    ok_rets = [bi for kind, bi, si, rv in body.defs().get(0, []) if kind == "assign" and rv["r"] == "aggregate" and rv["kind"].get("variant") == "Ok"]
+    ok_rets = _okret(body, ctx.origins(body))
     okr = bool(ok_rets) and all(cfg.edges_dominate(ok_edges, b) for b in ok_rets)
     ctx.ob("R10.4", "create_proxy_stream:Ok-only-on-Ok(Ok(Ok))", okr, "", "Ok((stream, session)) is returned only on the server's success answer" if okr else
            "create_proxy_stream can return Ok without the server's success SYNACK (timeout / failure answer / closed channel treated as success)")
